@@ -2572,11 +2572,12 @@ class Composite(ArmiObject):
 
     def append(self, obj):
         """Append a child to this object."""
-        self._children.append(obj)
+        self.add(obj)
 
     def extend(self, seq):
         """Add a list of children to this object."""
-        self._children.extend(seq)
+        for obj in seq:
+            self.add(obj)
 
     def add(self, obj):
         """Add one new child."""
